@@ -7,7 +7,7 @@
   rejects (rather than answers) a conditioning event that is itself impossible.
 
   Everything below is about the executable model `Y0.Cf.idcStar` (Y0/Model/IdcStar.lean: the code after the three
-  `fix:` commits to idc_star.py, `fix:` b76144c (sorted re-association order), `fix:` 1834c39 (the rule-2 test conditions on the other conditions) and the `fix:` a54a0f5 to `Expression.conditional` listed in known_findings.jsonl), which the correspondence check (harness/props/c08.py) compares with
+  `fix:` commits to idc_star.py, `fix:` b76144c (sorted re-association order), `fix:` 1834c39 (the rule-2 test conditions on the other conditions), `fix:` 1a940ac (Zero when the exchange makes two outcomes one variable with two values) and the `fix:` a54a0f5 to `Expression.conditional` listed in known_findings.jsonl), which the correspondence check (harness/props/c08.py) compares with
   the real `idc_star` on every run under every iteration order of the sets the Python iterates over.
 
   PROVED (all graphs, events, fuels, iteration orders):
@@ -69,6 +69,12 @@
                                                  with ANY number of conditions on which line 4 exchanges one): there the exchanged condition is one of
                                                  the conditions and the premise of rule 2 given the others holds for every outcome.  PARTIAL: the
                                                  semantic equality is proved for ONE condition only (`idcstar_sound_fragment_exchange`), see OPEN (a).
+    * `idcstar_collapse_zero_only_on_conflict`,  THE REWRITING OF THE OUTCOMES AT LINE 4 (after `fix:` 1a940ac; before, a dict comprehension in which an outcome
+      `idcstar_no_collapse_no_zero`,            `Y -> Y_z` silently overwrote an outcome `Y_z`): the loop answers "inconsistent" (IDC* returns Zero) ONLY when two
+      `idcstar_exchange_dict`                   outcomes end up under one key with DIFFERENT values; when the re-keyed outcomes are pairwise different it never does and
+                                                 returns exactly them; and whenever it returns a dict, it is the dict the comprehension built (so every lemma about
+                                                 the exchanged outcomes carries over).  That this Zero is a SOUND answer (the joint event has probability 0) is
+                                                 decided by the oracle only (OPEN, `idcstar_zero_sound`).
     * vocabulary (C06 part) `idcstar_vocab`      every leaf of a returned estimand is a single-world term
 
   -- OPEN (stated in full, NOT proved outside the fragments; the first is FALSE on the current tree outside them — see the C08
@@ -90,7 +96,9 @@
   --     is about a two-world event (`Y_x`, `Y'`), outside the fragment on which ID* is proved sound (C07); (c) starred values /
   --     counterfactual inputs: ID* is wrong there today (F10), inherited; (d) the bound-range part of F11 in the final normalisation.
   --   theorem idcstar_zero_sound : idcStar … = .ok .zero → … → probEvent M ν (outs ++ conds) = 0
-  --     proved for Zero from line 3 (`idcstar_zero_line3_sound`) and for Zero coming from ID*'s lines 2 and 5 (C07); Zero from
+  --     proved for Zero from line 3 (`idcstar_zero_line3_sound`) and for Zero coming from ID*'s lines 2 and 5 (C07); Zero from the
+  --     collision of two re-keyed outcomes at line 4 (`fix:` 1a940ac) is characterised (`idcstar_collapse_zero_only_on_conflict`) but its
+  --     soundness needs rule 2 semantically plus consistency (Y_S = Y_{S,z} given Z_S = z), not proved; Zero from
   --     deeper inside ID* is open (false today: F10/M5).
   --   theorem idcstar_terminates : idcStar … ≠ .error (.internal "fuel")
   --     The two inner ID* calls terminate (Props/C07 `idstar_never_out_of_fuel`).  For the line-4 recursion of IDC* itself:
@@ -119,6 +127,7 @@ import Y0.Lemmas.CfIdcFrag
 import Y0.Lemmas.CfIdcExch
 import Y0.Lemmas.CfIdcTermC
 import Y0.Lemmas.CfIdcOrder
+import Y0.Lemmas.CfIdcCollapse
 import Y0.Props.C07
 import Y0.Props.C04
 
@@ -559,6 +568,34 @@ example : inFragmentXsB sortWorlds (MG.fromEdges [0, 1, 2] [(2, 0), (0, 1)] [])
 `P(B = b | C = c, A = a)`: given the observed collider `A`, rule 2 applies neither to `C` nor to `A` -/
 example : inFragmentXsB sortWorlds (MG.fromEdges [0, 1, 2] [(1, 0)] [(1, 0), (0, 2)])
     [(Var.plain 1, ⟨1, false⟩)] [(Var.plain 2, ⟨2, false⟩), (Var.plain 0, ⟨0, false⟩)] = false := by decide
+
+/-! ## 2f. the rewriting of the outcomes at line 4 (after `fix:` 1a940ac) -/
+
+/-- **IDC\* answers Zero at the exchange ONLY when two outcomes collide with different values**: if the loop that re-subscripts
+the outcomes reports "inconsistent", two outcome conjuncts `p`, `p'` end up under the same key `k` (after the re-subscripting of
+those that descend from the exchanged condition) with different values -/
+theorem idcstar_collapse_zero_only_on_conflict (cf : MG Var) (outcomes : Event) (cond : Var) (val : Iv)
+    (h : exchangeStep cf outcomes cond val = .ok none) :
+    ∃ p ∈ outcomes, ∃ p' ∈ outcomes, ∃ k v v', exchangeKey cf cond val p = .ok (k, v) ∧
+      exchangeKey cf cond val p' = .ok (k, v') ∧ v ≠ v' :=
+  exchangeStep_none cf outcomes cond val h
+
+/-- … and it never does when the re-keyed outcomes are pairwise different: then the loop returns exactly them -/
+theorem idcstar_no_collapse_no_zero (cf : MG Var) (outcomes : Event) (cond : Var) (val : Iv) (qs : List (Var × Iv))
+    (hm : outcomes.mapM (exchangeKey cf cond val) = .ok qs) (hnd : (qs.map (·.1)).Nodup) :
+    exchangeStep cf outcomes cond val = .ok (some qs) :=
+  exchangeStep_of_nodup cf outcomes cond val qs hm hnd
+
+/-- whenever the loop returns a dict, it is the dict the comprehension it replaced would have built -/
+theorem idcstar_exchange_dict (cf : MG Var) (outcomes : Event) (cond : Var) (val : Iv) (e : Event)
+    (h : exchangeStep cf outcomes cond val = .ok (some e)) : exchangeOutcomes cf outcomes cond val = .ok e :=
+  exchangeStep_some cf outcomes cond val e h
+
+/-- non-vacuity, the witness of the repaired defect: on `C → B → D` (B=1, C=2, D=3), outcomes `D_b = d`, `D = d'`, exchanged
+condition `B = b`: `D` becomes `D_b`, which is there with the other value -/
+example : exchangeStep (MG.fromEdges [Var.plain 1, Var.plain 2, Var.plain 3, ⟨3, none, false, [⟨1, false⟩]⟩]
+      [(Var.plain 2, Var.plain 1), (Var.plain 1, Var.plain 3)] [])
+    [(⟨3, none, false, [⟨1, false⟩]⟩, ⟨3, false⟩), (Var.plain 3, ⟨3, true⟩)] (Var.plain 1) ⟨1, false⟩ = .ok none := by decide
 
 /-! ## 3. vocabulary (C06, IDC* part) -/
 
